@@ -419,15 +419,16 @@ fn main() {
                         a, b
                     ));
                 }
-
-                res.push_str(&*format!(
-                    "
-    state = {};",
-                    codes.len(),
-                ));
             }
             if !codes.last().unwrap().is_empty() {
                 codes.push(Vec::new());
+            }
+            if opt {
+                res.push_str(&*format!(
+                    "
+    state = {};",
+                    codes.len() - 1,
+                ));
             }
         }
 
